@@ -180,6 +180,7 @@ fn exec(rep: &mut Report, ctx: &mut Ctx, op: &str) {
             Err(o) => Some(o),
             Ok((g, dir)) => {
                 let out: Vec<String> = qs.iter().map(|q| answer(&g, q)).collect();
+                lookup_vs_iter(rep, &g, &files, op);
                 drop(g);
                 let _ = std::fs::remove_dir_all(dir);
                 Some(out.join(" "))
@@ -190,6 +191,80 @@ fn exec(rep: &mut Report, ctx: &mut Ctx, op: &str) {
         Some(o) => rep.case(op, &o, true),
         None => rep.note(&format!("op not executable: {}", &op[..op.len().min(60)])),
     }
+}
+
+/// ids of a chunk file if it is what a writer produces: OIDL strictly ascending, OIDF = cumulative
+/// counts of first bytes (anything else is outside the property's domain)
+fn well_formed_ids(b: &[u8]) -> Option<Vec<Id>> {
+    let n = *b.get(6)? as usize;
+    let mut toc = Vec::new();
+    for k in 0..=n {
+        let e = b.get(8 + 12 * k..8 + 12 * k + 12)?;
+        toc.push(([e[0], e[1], e[2], e[3]], u64::from_be_bytes(e[4..].try_into().ok()?) as usize));
+    }
+    let chunk = |id: &[u8; 4]| -> Option<&[u8]> {
+        let k = toc.iter().position(|t| &t.0 == id)?;
+        b.get(toc[k].1..toc.get(k + 1)?.1)
+    };
+    let oidf = chunk(b"OIDF")?;
+    let oidl = chunk(b"OIDL")?;
+    if oidf.len() != 1024 || oidl.len() % 20 != 0 {
+        return None;
+    }
+    let ids: Vec<Id> = oidl.chunks_exact(20).map(|c| c.try_into().unwrap()).collect();
+    if !ids.windows(2).all(|w| w[0] < w[1]) {
+        return None;
+    }
+    for bucket in 0..256usize {
+        let want = ids.iter().filter(|i| i[0] as usize <= bucket).count() as u32;
+        if u32::from_be_bytes(oidf[4 * bucket..4 * bucket + 4].try_into().unwrap()) != want {
+            return None;
+        }
+    }
+    Some(ids)
+}
+
+/// Every id the graph lists (`iter_ids`, i.e. graph position order) must be found by `lookup()` at
+/// exactly that position (the base-most one if several files hold it) — for ALL ids of every
+/// well-formed graph that is opened, git-made, synthesised or replayed.
+fn lookup_vs_iter(rep: &mut Report, g: &Graph, files: &[Vec<u8>], op: &str) {
+    if !files.iter().all(|f| well_formed_ids(f).is_some()) {
+        return;
+    }
+    let listed: Vec<Id> = match catch(|| g.iter_ids().map(to_id).collect::<Vec<Id>>()) {
+        Ok(v) => v,
+        Err(m) => {
+            rep.oracle_failure("iter_ids-panic", &format!("iter_ids() panics on a well-formed graph: {m}"), op);
+            return;
+        }
+    };
+    let mut first: BTreeMap<Id, usize> = BTreeMap::new();
+    for (pos, id) in listed.iter().enumerate() {
+        first.entry(*id).or_insert(pos);
+    }
+    for (pos, id) in listed.iter().enumerate() {
+        rep.oracle_checked();
+        let want = first[id];
+        let got = catch(|| g.lookup(oid(id)).map(|p| p.0 as usize));
+        if got != Ok(Some(want)) {
+            let place = if pos == 0 { "first" } else if pos + 1 == listed.len() { "last" } else { "inner" };
+            rep.oracle_failure(
+                &format!("lookup-vs-iter bucket={:02x} {place} id={}", id[0], hex(id)),
+                &format!(
+                    "iter_ids() lists {} at graph position {pos} (first occurrence {want}) of {} commits in {} file(s), but lookup() gives {:?}",
+                    hex(id),
+                    listed.len(),
+                    files.len(),
+                    got
+                ),
+                op,
+            );
+        }
+    }
+    rep.bucket(&format!(
+        "lookup-vs-iter:buckets[{}]",
+        [0x00u8, 0x01, 0xfe, 0xff].iter().filter(|b| listed.iter().any(|i| i[0] == **b)).map(|b| format!("{b:02x}")).collect::<Vec<_>>().join(",")
+    ));
 }
 
 fn make_op(files: &[Vec<u8>], qs: &[String]) -> String {
@@ -229,7 +304,20 @@ fn pick_time(r: &mut Rng) -> u64 {
     }
 }
 
-fn commit_tree(dir: &Path, tree: &Id, parents: &[Id], time: u64, n: usize) -> Option<Id> {
+/// the id `git commit-tree` will give (fixed identities, see hcommon::git_cmd) — used to grind the
+/// message until the commit lands in a chosen fan-out bucket
+fn predict_commit_id(tree: &Id, parents: &[Id], time: u64, msg: &str) -> Id {
+    let mut body = format!("tree {}\n", hex(tree));
+    for p in parents {
+        body.push_str(&format!("parent {}\n", hex(p)));
+    }
+    body.push_str("author A U Thor <author@example.com> 1500000000 +0000\n");
+    body.push_str(&format!("committer C O Mitter <committer@example.com> {time} +0000\n\n{msg}\n"));
+    let h = gix_object::compute_hash(gix_hash::Kind::Sha1, gix_object::Kind::Commit, body.as_bytes());
+    to_id(&h)
+}
+
+fn commit_tree(dir: &Path, tree: &Id, parents: &[Id], time: u64, msg: &str) -> Option<Id> {
     let mut c = git_cmd(dir);
     c.env("GIT_COMMITTER_DATE", format!("@{time} +0000"))
         .env("GIT_AUTHOR_DATE", "@1500000000 +0000")
@@ -238,7 +326,7 @@ fn commit_tree(dir: &Path, tree: &Id, parents: &[Id], time: u64, n: usize) -> Op
     for p in parents {
         c.arg("-p").arg(hex(p));
     }
-    c.arg("-m").arg(format!("c{n}"));
+    c.arg("-m").arg(msg);
     let o = c.output().ok()?;
     if !o.status.success() {
         return None;
@@ -336,8 +424,35 @@ fn gen_history(rep: &mut Report, ctx: &mut Ctx, r: &mut Rng, n_commits: usize, i
             let tree = *r.pick(&trees);
             let time = pick_time(r);
             let pids: Vec<Id> = ps.iter().map(|p| made[*p].id).collect();
-            match commit_tree(&dir, &tree, &pids, time, n) {
+            // the first commits of every increment are ground into the extreme fan-out buckets, so that
+            // every file of the chain holds ids starting with 00, 01, fe, ff (and, the files being
+            // small, ids that are the first / last / only one of their bucket)
+            let want_bucket: Option<u8> = match n - start {
+                0 => Some(0x00),
+                1 => Some(0xff),
+                2 => Some(if inc % 2 == 0 { 0x01 } else { 0xfe }),
+                3 if inc == 0 => Some(0xfe),
+                _ => None,
+            };
+            let mut msg = format!("c{n}");
+            if let Some(b) = want_bucket {
+                for k in 0..20_000u32 {
+                    let m = format!("c{n}.{k}");
+                    if predict_commit_id(&tree, &pids, time, &m)[0] == b {
+                        msg = m;
+                        break;
+                    }
+                }
+            }
+            let predicted = predict_commit_id(&tree, &pids, time, &msg);
+            match commit_tree(&dir, &tree, &pids, time, &msg) {
                 Some(id) => {
+                    if id != predicted {
+                        rep.note(&format!("commit id prediction differs from git: {} vs {}", hex(&predicted), hex(&id)));
+                    }
+                    if let Some(b) = want_bucket {
+                        rep.bucket(&format!("ground:{:02x}:{}", b, if id[0] == b { "hit" } else { "miss" }));
+                    }
                     if made.iter().any(|m| m.id == id) {
                         continue; // identical commit (same tree, parents, time): not a new object
                     }
@@ -631,6 +746,47 @@ fn synth_cases(rep: &mut Report, ctx: &mut Ctx, r: &mut Rng) {
         }
         rep.bucket(&format!("synth:{name}"));
         exec(rep, ctx, &make_op(&[file], &qs));
+    }
+    // extreme fan-out buckets: 00 (two ids), 01, one lonely inner bucket, fe, ff (two ids) — alone and as
+    // the upper file of a chain
+    {
+        let mut ids: Vec<Id> = vec![[0; 20], id(0x00, 9), id(0x01, 1), id(0x7f, 1), id(0xfe, 1), id(0xff, 0), [0xff; 20]];
+        ids.sort();
+        let commits: Vec<SynthCommit> =
+            ids.iter().enumerate().map(|(k, i)| SynthCommit { id: *i, tree, p1: NONE, p2: NONE, gen: 1, time: k as u64 }).collect();
+        let f = synth_file(&commits, None, &[]);
+        let mut qs: Vec<String> = vec!["N".into()];
+        for i in &ids {
+            qs.push(format!("I{}", hex(i)));
+        }
+        for i in [id(0x00, 1), id(0x01, 0), id(0xfe, 2), id(0xff, 1), id(0x02, 0), id(0xfd, 0)] {
+            qs.push(format!("I{}", hex(&i)));
+        }
+        for p in 0..=ids.len() {
+            qs.push(format!("A{p}"));
+        }
+        rep.bucket("synth:extreme-buckets");
+        exec(rep, ctx, &make_op(&[f.clone()], &qs));
+        let upper: Vec<SynthCommit> = [id(0x00, 0x55), id(0x01, 0x55), id(0xfe, 0x55), id(0xff, 0x55)]
+            .iter()
+            .enumerate()
+            .map(|(k, i)| SynthCommit { id: *i, tree, p1: k as u32, p2: NONE, gen: 2, time: 50 })
+            .collect();
+        let f1 = synth_file(&upper, None, &[[1; 20]]);
+        for c in &upper {
+            qs.push(format!("I{}", hex(&c.id)));
+        }
+        for p in ids.len()..=ids.len() + 4 {
+            qs.push(format!("A{p}"));
+        }
+        rep.bucket("synth:extreme-buckets-chain");
+        exec(rep, ctx, &make_op(&[f, f1], &qs));
+        // a single commit per file, in bucket 00 resp. ff
+        for b in [0x00u8, 0xff] {
+            let one = vec![SynthCommit { id: id(b, 7), tree, p1: NONE, p2: NONE, gen: 1, time: 1 }];
+            rep.bucket("synth:single-in-extreme-bucket");
+            exec(rep, ctx, &make_op(&[synth_file(&one, None, &[])], &["N".into(), format!("I{}", hex(&id(b, 7))), "A0".into()]));
+        }
     }
     // a chain of three synthesised files: parents across files, positions at the file borders
     {
